@@ -153,3 +153,5 @@ func modelName(m color.Model) string {
 	}
 	return fmt.Sprintf("%T", m)
 }
+
+func setPoolsMostRecent() { vsync.SetPoolPolicy(vsync.PoolMostRecent, nil) }
